@@ -63,6 +63,8 @@ STATEMENT_STATUS: Dict[str, str] = {
     "C08_text_line": "proved (definitional)", "C08_text_box": "proved (definitional)",
     "C08_text_group": "proved (definitional)", "C08_text_line_break": "proved",
     "C08_box_uniform": "proved (a box only holds lines of its own class)",
+    "C08_conserve_glyphs_figures": "proved (figures inside figures, any depth, all_texts on or off)",
+    "C08_conserve_glyphs_nested": "proved: multiset of glyphs over the WHOLE page tree incl. nested figures is conserved",
     "C08_single_root": "proved (group_textboxes ends with at most one object in the plane, for every heap comparison)",
 }
 
